@@ -415,9 +415,22 @@ class RemoveWatch(Monitor):
                     continue
                 rule = ('target_flows_not_removed' if ident in tset
                         else 'unrelated_task_flows_changed')
+                pr_ = []
+                if (ident in tset and e['flows'] <= a['flows']
+                        and n2 in prog.tasks
+                        and model.parentless(n2, prog.ppoint(c2))
+                        and any(T != ident and T.split('/')[1] == n2 and
+                                a['flows'] - e['flows'] <= before[T]['flows']
+                                for T in targets if T in before)):
+                    # known finding C30-F4: the same mechanism, but the next
+                    # parentless instance is itself a target of the command
+                    # and was handled before its predecessor: the flow comes
+                    # back
+                    pr_ = ['flow_merged_back_from_removed_parentless_predecessor']
                 res.violate(rule, dict(detail, task=ident,
                                        expected=sorted(e['flows']),
-                                       got=sorted(a['flows'])))
+                                       got=sorted(a['flows']),
+                                       predicates=pr_))
             for table in ('prereqs', 'suicide'):
                 for key in sorted(set(e[table]) | set(a[table])):
                     ev, av = e[table].get(key), a[table].get(key)
@@ -554,6 +567,19 @@ def run(params):
                             if t < t_set and f'{k[0]}/{k[1]}' == T}
                 late = [(t, list(k), m) for t, k, m in res.world.msg_log
                         if k in old_jobs and t >= t_set - 1e-9]
+                if not late:
+                    # ... or the answer of a poll of the old job (not a job
+                    # message, so not in the message log), or a message
+                    # that came between the removal and the set: either
+                    # way the respawned proxy went from waiting straight to
+                    # an active or final status without a job of its own
+                    import re
+                    jump = re.compile(
+                        r'^\[%s:waiting[^\]]*\] => '
+                        r'(submitted|running|succeeded|failed)' % re.escape(T))
+                    if any(jump.match(m) for _l, m in res.log):
+                        late = ['(status moved by a message or poll answer '
+                                'of the removed job)']
                 if late:
                     preds.append('orphan_job_message_after_respawn')
                 res.violate('removed_task_did_not_run_again', {
